@@ -198,14 +198,19 @@ public:
    // message id, expected offset, reassembly-buffer size and its valid prefix; slave gateway error/partial state; for the mini tunnel
    // (stateless apart from its inflater) which deflated packet was inflated last.  The delivered list is deliberately NOT part of the key:
    // the oracle is evaluated on every transition for the Messages delivered by that transition, which depend on (state, packet) only.
+   // (a template so that the harness does not depend on the key type of the private table)
+   template <class K, class V> static void CanonReceiveStates(const Hashtable<K, V> & table, std::string & out)
+   {
+      for (ConstHashtableIterator<K, V> it(table); it.HasData(); it++) {
+         const V & rs = it.GetValue(); const ByteBuffer * b = rs._buf();
+         out += verif::Fmt("|%s id=%u off=%u size=%d:", it.GetKey().ToString()(), rs._messageID, rs._offset, b ? (int)b->GetNumBytes() : -1);
+         if (b) out += verif::Hex(b->GetBuffer(), std::min(rs._offset, b->GetNumBytes()));
+      }
+   }
    void Canon(const World & w, std::string & out) const
    {
       if (w.rx.t) {
-         for (HashtableIterator<IPAddressAndPort, PacketTunnelIOGateway::ReceiveState> it(w.rx.t->_receiveStates); it.HasData(); it++) {
-            const PacketTunnelIOGateway::ReceiveState & rs = it.GetValue(); const ByteBuffer * b = rs._buf();
-            out += verif::Fmt("|%s id=%u off=%u size=%d:", it.GetKey().ToString()(), rs._messageID, rs._offset, b ? (int)b->GetNumBytes() : -1);
-            if (b) out += verif::Hex(b->GetBuffer(), std::min(rs._offset, b->GetNumBytes()));
-         }
+         CanonReceiveStates(w.rx.t->_receiveStates, out);
       }
       if (w.rx.m) out += verif::Fmt("|codec=%d last=%d", w.rx.m->_codec() ? 1 : 0, w.lastInflated);
       if (w.rx.slave) out += verif::Fmt("|slave err=%d partial=%d", w.rx.slave->GetUnrecoverableErrorStatus().IsError() ? 1 : 0, w.rx.slave->_recvBuffer._buffer() ? 1 : 0);
